@@ -21,7 +21,7 @@ REACH = [
     "StubsStringGenerator._get_class_in_package",
     "MyPyAstVisitor.enter_classdef",
 ]
-POOL = ["alpha", "beta", "gamma", "delta", "epsilon"]
+POOL = ["alpha", "beta_two", "gamma", "delta_far_only", "epsilon", "shared_name"]
 
 
 class HClass:
@@ -36,7 +36,7 @@ class HClass:
         return self.name.startswith("_")
 
     def tag(self, m: str) -> str:
-        return f"t_{m}_{self.name.strip('_').lower()}"
+        return f"t_{m.replace('_', '')}_{self.name.strip('_').lower()}"
 
     def priv_ancestors(self) -> set:
         out = set()
